@@ -27,8 +27,8 @@ ASSUMPTIONS = [
     "wrapper rules: the first command of a non-empty prefix enters configuration mode; 'commit*' only with do_commit; save/write/copy only with do_finalize",
     "R7 (vf/ref/deploy.py) for rule chains; sibling deploy rules have disjoint languages; no %ifcontext in generated rulebooks",
 ]
-FLOORS = {"quick": {"streams_compared": 3000, "commands_compared": 20000, "exits_seen": 3000, "rule_params_checked": 5000, "nondefault_params": 500, "production_jobs": 200, "cases_with_two_apply_logics": 100, "xpl_patches": 500, "xpl_endif_lines_shown": 500},
-          "thorough": {"streams_compared": 90000, "commands_compared": 600000, "exits_seen": 90000, "rule_params_checked": 150000, "nondefault_params": 15000, "production_jobs": 6000, "xpl_patches": 12000, "xpl_endif_lines_shown": 12000}}
+FLOORS = {"quick": {"streams_compared": 3000, "commands_compared": 20000, "exits_seen": 3000, "rule_params_checked": 5000, "nondefault_params": 500, "production_jobs": 200, "cases_with_two_apply_logics": 100, "xpl_patches": 500, "xpl_endif_lines_shown": 500, "production_real_jobs": 14},
+          "thorough": {"streams_compared": 90000, "commands_compared": 600000, "exits_seen": 90000, "rule_params_checked": 150000, "nondefault_params": 15000, "production_jobs": 6000, "xpl_patches": 12000, "xpl_endif_lines_shown": 12000, "production_real_jobs": 14}}
 MODELS = {
     "huawei": ["Huawei", "Huawei CE6870", "Huawei NE40E-X8", "Huawei Quidway S5300"],
     "h3c": ["H3C S6800"], "optixtrans": ["Huawei OptiXtrans DC908"],
@@ -285,6 +285,56 @@ def check_case(seed, acc):
     return w
 
 
+FORCE_COMMIT_PAIRS = [
+    # the shipped huawei bgp logic marks the removal of the BGP process as needing its own commit
+    ("Huawei CE6870", "bgp 65000\n peer 1.1.1.1 as-number 1\n", "bgp 65001\n peer 2.2.2.2 as-number 2\n"),
+    ("Huawei CE6870", "bgp 65000\n peer 1.1.1.1 as-number 1\nsysname a\n", "sysname b\n"),
+    ("Huawei NE40E-X8", "bgp 100\n peer 1.1.1.1 as-number 1\n", "bgp 200\n peer 2.2.2.2 as-number 2\n"),
+    ("Huawei Quidway S5300", "bgp 100\n peer 1.1.1.1 as-number 1\n", ""),
+    ("Huawei CE6870", "sysname a\n", "sysname b\n"),
+    ("Cisco ASR 9010", "hostname a\n", "hostname b\n"),
+    ("Arista DCS-7050", "hostname a\n", "hostname b\n"),
+]
+
+
+def check_production_real(acc):
+    """CliDeployerJob.parse_result with the real _diff_and_patch and the shipped rulebooks, committing enabled and disabled"""
+    import types
+    import annet.deploy as AD
+    import annet.api as API
+    from annet import tabparser
+    from annet.types import OldNewResult
+    from annet.vendors import registry_connector
+    from vf import harness_gen as H
+    for model, old_t, new_t in FORCE_COMMIT_PAIRS:
+        hw = hw_of(model)
+        fmt = registry_connector.get().match(hw).make_formatter()
+        for dont_commit in (False, True):
+            device = H.FakeDevice(hw)
+            old, new = tabparser.parse_to_tree(old_t, fmt.split), tabparser.parse_to_tree(new_t, fmt.split)
+            w = {"production_real": True, "model": model, "old": old_t, "new": new_t, "dont_commit": dont_commit}
+            orig_gd = AD.get_deployer
+            AD.get_deployer = lambda: _Driver()
+            try:
+                job = API.CliDeployerJob(device, types.SimpleNamespace(acl_safe=False, dont_commit=dont_commit))
+                job.parse_result(OldNewResult(device=device, old=old, new=new))
+            except Exception as e:
+                acc.violation("C09/production-exception/%s" % type(e).__name__, "CliDeployerJob.parse_result raised", dict(w, error=repr(e)[:300]))
+                continue
+            finally:
+                AD.get_deployer = orig_gd
+            acc.count("production_real_jobs")
+            shown = [ln for ln in job.cmd_lines[2:] if ln != ""]
+            sent = [c.cmd for c in job.deploy_cmds.get(device, [])]
+            acc.case(["production-real", model, old_t, new_t, dont_commit], nontrivial=len(shown) >= 2)
+            k = len(shown)
+            if k and not any(sent[s:s + k] == shown for s in range(len(sent) - k + 1)):
+                acc.violation("C09/production-sends-other-commands", "the deploy job hands the driver a command list that does not contain the shown patch as one run", dict(w, sent=sent[:80], shown=shown[:60]))
+                continue
+            if dont_commit and any(re.match(r"commit\b", c) for c in sent):
+                acc.violation("C09/commit-sent-although-disabled", "committing is disabled (dont_commit) but the deploy job sends a commit command", dict(w, sent=sent[:80]))
+
+
 KNOWN_ENDIF = "C09/huawei-xpl/second-endif-of-a-route-filter-shown-but-not-sent"
 WHAT_ENDIF = ("cmd_paths is a mapping keyed by command path: a Huawei XPL route-filter whose `else` block is followed by a last if/elseif chain is "
               "displayed with two `endif` lines, but both have the path (xpl route-filter X, endif) and only the first is sent")
@@ -415,6 +465,7 @@ def check_production(rng, pt, model, vname, acc, w):
 
 def run_corpus(spec, acc):
     from vf import corpus
+    check_production_real(acc)
     from annet.api import _diff_and_patch
     from annet.vendors import registry_connector
     for s in corpus.patch_samples():
@@ -437,7 +488,7 @@ def run_corpus(spec, acc):
 def run_shard(spec, acc):
     if spec["mode"] == "replay":
         w = spec["witness"]
-        if w.get("corpus"):
+        if w.get("corpus") or w.get("production_real"):
             run_corpus(spec, acc)
         elif w.get("xpl"):
             check_xpl(w["seed"], acc)
